@@ -53,6 +53,9 @@ K6 = [
 K17 = [{"file": "k6_hilbert.rs", "harness": "k6_ij_to_quaternary_equiv", "kind": "full-domain",
         "what": "real ij_to_quaternary (the one-level cell-location decision: thresholds a, b, c against 1.0 under the four flip states) == "
                 "frozen copy of the reference release for every f64 pair with |x|,|y| <= 1e12 and every flip state (complete for one level)"},
+       {"file": "k17_hilbert.rs", "harness": "k14_ij_to_quaternary_total", "kind": "full-domain",
+        "what": "real ij_to_quaternary returns a digit < 4 without panic for every finite f64 pair (|u|,|v| <= 1e300) and every flip "
+                "state of +-1: discharges the contract Verus unit hilbert assumes for it"},
        {"file": "k17_hilbert.rs", "harness": "k17_shift_then_unshift_is_identity", "kind": "full-domain",
         "what": "real shift_digits: for every parent/child digit pair x 4 flip states x invert_j x both patterns, shifting with P and "
                 "then with reverse_pattern(P) restores the pair (complete: all 256 cases symbolic, no loop over inputs)"}] + [
@@ -168,7 +171,8 @@ PROPS = {
         "technique": "Verus contract + loop invariants on the extracted real uncompact; lemmas over the C07 children spec",
     },
     "C14": {
-        "units": ["compact", "glue", "hilbert"],
+        "units": ["compact", "glue", "hilbert", "origin", "shape"],
+        "kani": [k for k in K17 if k["harness"] == "k14_ij_to_quaternary_total"],
         "bounded_ops": [
             {"op": "lonlat_to_cell", "budget": 600, "what": "bounded cross-check of the float-layer assumptions on the real code: for "
              "extreme and random lon/lat x i32 resolutions lonlat_to_cell returns, and an Ok result is a canonical ID of the requested "
@@ -211,16 +215,28 @@ PROPS = {
         "rlimit": 30,
         "level": "proof",
         "assumptions": STD_ASSUME + [
-            "float callees are contract boundaries with ASSUMED contracts: get_quintant_vertices returns 3 vertices, get_face_vertices / "
-            "get_pentagon_vertices 5, normalize_longitudes / Vec::reverse preserve length, projection inverse is total. The counting "
-            "contracts of PentagonShape::split_edges (count * max(n,1)), from_vertices and get_vertices_vec that unit glue uses are "
-            "DISCHARGED on the real methods in unit shape (interpolation arithmetic, clone and the winding test as stubs)",
+            "float callees are contract boundaries: normalize_longitudes / Vec::reverse preserve length and the projection inverse is "
+            "total (ASSUMED). The counting contracts that unit glue uses - tiling.rs get_quintant_vertices returns 3 vertices, "
+            "get_face_vertices / get_pentagon_vertices 5 (transform_pentagon keeps the count), PentagonShape::new / new_triangle 5 / 3, "
+            "split_edges count * max(n,1), from_vertices, get_vertices_vec, and scale / rotate180 / reflect_y / translate keep the count "
+            "and return self - are DISCHARGED on the real functions in unit shape, with their float content as stubs (matrix products, "
+            "interpolation, the winding test, clone; the per-vertex in-place map loops `for vertex in &mut self.vertices` are replaced "
+            "by one stub assumed to keep the length: Verus has no specification for slice::IterMut). Still ASSUMED there: the lazily "
+            "built constants pentagon() / triangle() are five-vertex shapes; [T; N]::to_vec keeps the length",
             "item-local rewrites of cell_to_boundary listed in evidence (unwrap_or_default, unwrap_or_else closure, .max(), iterator "
             "for-loops -> index loops, thread-local projector -> stub)",
-            "ONLY the ring-length / closure sentence is decided; finite coordinates, latitude range, orientation, centre containment, "
-            "180-degree window and corner stability are float geometry and are not decided",
+            "ONLY the ring-length / closure sentence is decided (proved); finite coordinates, latitude range, orientation, centre "
+            "containment, 180-degree window and corner stability are float geometry: no contract decides them, a BOUNDED sampled "
+            "stand-in (replay op boundary_geometry) runs on every check and is never counted as proved",
         ],
-        "search_ops": ["cell_to_boundary"],
+        "bounded_ops": [
+            {"op": "boundary_geometry", "budget": 2000, "what": "BOUNDED stand-in (sampled; not a proof) for the float sentences of C11: for "
+             "every cell of resolutions 0..2, cells around the meridians 87E / 93W (where the internal azimuth wraps), the antimeridian "
+             "and random cells of every resolution, with 1, 2 and 4 segments per edge: coordinates finite, |latitude| <= 90, corner "
+             "points of the 1-segment ring are points of the finer rings (1e-9 degrees), and - unless the ring reaches beyond 80 degrees "
+             "of latitude - longitudes within a 180-degree window, counter-clockwise orientation, reported centre inside the ring"},
+        ],
+        "search_ops": ["cell_to_boundary", "boundary_geometry"],
         "level_text": "Proof (Verus/Z3) on the real cell_to_boundary and get_pentagon that for every u64 and every options value the "
                       "result is Err for non-cells, empty for world-cell aliases, and otherwise has exactly vertices*n (+1 when closed) "
                       "points with n = max(segments, 1) or the resolution-dependent default, and a closed ring repeats its first point.",
@@ -256,6 +272,16 @@ PROPS = {
     },
     "C13": {
         "units": ["memo"],
+        "state_inventory": {
+            "pattern": r"(?<!')\bstatic\s+mut\b|thread_local!|OnceLock|LazyLock|lazy_static!|\bCell<|RefCell<|Mutex<|RwLock<|Atomic[A-Z]\w*|\bunsafe\b|UnsafeCell",
+            "expected": {"src/projections/dodecahedron.rs": 2, "src/core/pentagon.rs": 2, "src/core/hilbert.rs": 1, "src/core/origin.rs": 3},
+            "what": "frame condition of the purity argument: the only places where the crate keeps state between calls are the per-thread "
+                    "DodecahedronProjection (thread_local! + one unsafe deref; its caches are under contract in unit memo), and three "
+                    "initialise-once constants (PENTAGON_CONSTANTS LazyLock, the hilbert lazy_static patterns, ORIGINS OnceLock). A "
+                    "mechanical scan of src/ for static mut / thread_local! / OnceLock / LazyLock / lazy_static! / Cell / RefCell / "
+                    "Mutex / RwLock / Atomic* / unsafe must find exactly this inventory; anything else makes the check UNDECIDED "
+                    "(never an alarm by itself)",
+        },
         "level": "proof",
         "assumptions": [
             "ONLY single-thread history independence of the projection object (its two lazily filled caches, 30 + 240 slots, and its "
@@ -319,25 +345,49 @@ PROPS = {
         "technique": "Kani full-domain harness (digit shift) + bounded Kani harnesses over all positions of depth n (round trip)",
     },
     "C18": {
+        "units": ["origin"],
+        "rlimit": 30,
         "kani": K3 + [K1],
         "kani_jobs": 14,
         "level": "proof",
         "assumptions": [
             "ONLY the sentence 'on every face the quintant <-> segment relabelling is a bijection that preserves the curve orientation "
             "in both directions' is decided (finite: 12 faces x 5 quintants, enumerated completely by closed-term Kani harnesses on the "
-            "real functions). The regular-dodecahedron geometry of the frame, the 93-degree offset and nearest-face selection are f64 "
-            "geometry (acos/atan2/sin) and are NOT decided.",
+            "real functions, and for every face record by Verus unit origin). Nearest-face selection: the real find_nearest_origin is "
+            "PROVED (Verus) to return a face-table entry that no other entry beats under the code's own distance function and `<` "
+            "(haversine as an uninterpreted function returning a finite number, IEEE `<` assumed transitive and irreflexive); that this "
+            "distance function is monotone in the great-circle distance, the regular-dodecahedron geometry of the frame and the "
+            "93-degree offset are f64 geometry (sin/acos/atan2): no contract decides them, BOUNDED stand-ins (replay ops frame, "
+            "nearest_face) run on every check and are never counted as proved.",
             "K3 builds each face's Origin from the reference (first_quintant, orientation) table; K1 proves the real generate_origins() "
             "produces exactly that table; the relabelling functions read no other field",
+            "Verus unit origin (second, independent route, for EVERY face record with first_quintant < 5 and a 5-entry layout, either "
+            "winding): the real quintant_to_segment / segment_to_quintant compute the documented relabelling (seg_of / quint_of), the two "
+            "are mutually inverse on 0..5 and read the same layout slot in both directions (thm_relabel_inverse, "
+            "thm_relabel_orientation); is_layout_clockwise (slice comparison against the two clockwise tables) is an opaque boolean "
+            "there - which faces wind clockwise is pinned by Kani K3/K1, not by Verus",
         ],
-        "search_ops": ["reference"],
-        "level_text": "Complete finite proof (Kani/CBMC, no symbolic input, unwinding assertions on) on the real quintant_to_segment, "
+        "bounded_ops": [
+            {"op": "frame", "budget": 1, "what": "BOUNDED stand-in (closed term, f64 oracle with tolerance 1e-9 rad) for the frame sentence, "
+             "not a proof: the 12 face axes of the real get_origins() are antipodal pairs, each has exactly 5 neighbours at atan(2) = "
+             "63.435 degrees, exactly one is the north pole; the 12 base cells are centred (cell_to_lonlat) on their face centres; the "
+             "upper ring sits at longitudes -93 + 72 k, the lower at -57 + 72 k"},
+            {"op": "nearest_face", "budget": 20000, "what": "BOUNDED stand-in (sampled) for the nearest-face sentence: for points on both "
+             "sides of all 30 seams (0.005 .. 2 degrees off the seam, 0 .. 17 degrees along it), the 12 face centres and random points, "
+             "find_nearest_origin and lonlat_to_cell(p, 0) pick the face whose centre has the smallest great-circle angle (own "
+             "trigonometry; points closer than 1e-9 rad to a tie are skipped)"},
+        ],
+        "search_ops": ["reference", "frame", "nearest_face"],
+        "level_text": "Verus: the real quintant_to_segment / segment_to_quintant equal the documented relabelling and are mutually inverse, "
+                      "orientation-preserving bijections of 0..5 for every face record. "
+                      "Complete finite proof (Kani/CBMC, no symbolic input, unwinding assertions on) on the real quintant_to_segment, "
                       "segment_to_quintant and is_layout_clockwise: for each of the 12 faces and 5 quintants both round trips are "
                       "identities, the segment map is a permutation and the orientation is preserved both ways; the face table used is "
                       "proved equal to the real generate_origins() output by K1.",
         "level_note": "Closed-term harnesses are complete (the input space is the 60 (face, quintant) pairs). Frame geometry and "
                       "nearest-face selection: not decided (float).",
-        "technique": "Kani closed-term harnesses (complete enumeration) appended to the real origin.rs",
+        "technique": "Verus contracts on the functions extracted from origin.rs + Kani closed-term harnesses (complete enumeration) "
+                     "appended to the real origin.rs",
     },
     "C04": {
         "units": ["tree"],
@@ -345,8 +395,9 @@ PROPS = {
         "kani": [K4],
         "level": "proof",
         "assumptions": STD_ASSUME + [
-            "ONLY sentence 2 ('the per-resolution area reported by the metadata call equals sphere area / number of cells') is decided; "
-            "areas measured from cell boundaries (sentence 1) are f64 geometry and NOT decided",
+            "ONLY sentence 2 ('the per-resolution area reported by the metadata call equals sphere area / number of cells') is decided "
+            "(proved); areas measured from cell boundaries (sentence 1) are f64 geometry: no contract decides them, a BOUNDED sampled "
+            "stand-in (replay op cell_area_measured) runs on every check and is never counted as proved",
         ],
         "bounded_ops": [
             {"op": "cell_area", "budget": 1, "what": "through the crate-root export a5::cell_area, resolutions -5..40 in descending, random "
@@ -354,8 +405,12 @@ PROPS = {
              "public path; the proofs above are on core::cell_info)"},
             {"op": "get_num_cells", "budget": 1, "what": "through the crate-root export a5::get_num_cells, same orders: 12, 60*4^(r-1) "
              "(exact to r = 27, 1e-15 relative for 28/29), 0 for negative r, no panic"},
+            {"op": "cell_area_measured", "budget": 2000, "what": "BOUNDED stand-in (sampled; not a proof) for sentence 1: the area of the "
+             "reported boundary (32 segments per edge, 256 for resolutions <= 3; spherical excess of a triangle fan on the authalic "
+             "sphere, closed-form WGS84 authalic latitude written here) equals sphere / N(r) to 1e-4 relative, for cells at 0 .. 10 "
+             "degrees from the 12 face centres, at the face vertices and edge midpoints (resolutions 0 .. 29) and random cells"},
         ],
-        "search_ops": ["cell_area", "get_num_cells"],
+        "search_ops": ["cell_area", "get_num_cells", "cell_area_measured"],
         "level_text": "Verus: the real get_num_cells returns 12, 60*4^(r-1) exactly for r <= 27 and values within 1e-15 relative for the "
                       "two JS-rounded literals (28, 29), without overflow for any i32. Kani closed-term (complete, r = 0..29): the real "
                       "cell_area(r) equals AUTHALIC_AREA / N(r) to 1e-12 relative with N the exact count.",
@@ -375,16 +430,27 @@ PROPS = {
             "decided: every table / literal constant / integer stage that fixes which ID goes with which place equals the reference "
             "(bit layout via serialize == enc, face table, relabelling, digit-shift patterns, flip tables, quaternary_to_kj, literal "
             "constants, cell_area, s_to_anchor for curve depth <= 2 quick / <= 3 thorough - the last is BOUNDED)",
-            "NOT decided: that the f64 pipeline (polyhedral / gnomonic / authalic functions, pentagon constants computed with sin/cos, "
-            "ij_to_s on real coordinates) computes the same values as the reference for all inputs, and the 'within 1e-9 degrees' sentence",
+            "NOT decided by any contract: that the f64 pipeline (polyhedral / gnomonic / authalic functions, pentagon constants computed "
+            "with sin/cos, ij_to_s on real coordinates) computes the same values as the reference for all inputs, and the 'within 1e-9 "
+            "degrees' sentence. BOUNDED stand-in only (replay op reference_geo, never counted as proved): for the 3311 cells of the "
+            "frozen dump contracts/reference/geo_dump_v0.6.2.txt (produced ONCE by running the pinned reference release: all cells of "
+            "resolutions 0 and 1, cells around the wrap meridians / antimeridian / face centres at resolutions 2..29, 3000 random cells of "
+            "resolutions 0..29, centres within 89.5 degrees of latitude) this tree reports the same centre and the same corner points to "
+            "1e-9 degrees and maps the reference centre back to the same ID",
         ],
-        "search_ops": ["reference", "roundtrip"],
+        "bounded_ops": [
+            {"op": "reference_geo", "budget": 1, "what": "BOUNDED stand-in (frozen sample of 3311 cells from the reference release, "
+             "resolutions 0..29): cell_to_lonlat and the corners of cell_to_boundary agree with the reference release to 1e-9 degrees "
+             "and lonlat_to_cell(reference centre) returns the reference ID"},
+        ],
+        "search_ops": ["reference", "roundtrip", "reference_geo"],
         "level_text": "Proof that the integer labelling stages equal the frozen reference release: Verus (bit layout of the real "
                       "serialize/deserialize/get_resolution == documented layout with the reference face table) and complete closed-term "
                       "Kani harnesses on the real code (face table and frames bit-for-bit, relabelling 12x5, digit-shift and flip tables, "
                       "literal constants, cell_area). The curve walk s_to_anchor is compared with the reference for all positions of "
                       "depth <= 2 (quick) / <= 3 (thorough): bounded, labelled so.",
-        "level_note": "See assumptions: float pipeline and the 1e-9-degree sentence are out of reach of both back ends.",
+        "level_note": "See assumptions: float pipeline and the 1e-9-degree sentence are out of reach of both back ends; a bounded "
+                      "stand-in over a frozen sample of reference outputs runs on every check.",
         "technique": "Verus layout contract + Kani closed-term equalities against a frozen reference; bounded Kani for the curve walk",
     },
     "C20": {
@@ -433,6 +499,7 @@ TRUSTED = {
              "assume_specification u64::pow", "assume_specification u64::saturating_pow"],
     "glue": None,
     "memo": None,
+    "origin": None,
     "hilbert": None,
     "shape": None,
     "compact": ["external_body err_msg", "external_body get_origins", "assume_specification usize::pow",
@@ -449,7 +516,4 @@ NOT_APPLICABLE = {
     "C15": "projection invertibility to 1e-12 is a numerical-analysis claim about acos/atan2/slerp code; out of reach",
     "C16": "local area preservation needs real analysis of the IVEA formulas over f64 code; out of reach",
     "C19": "authalic series inverse/monotone/odd to 1e-12: Clenshaw sums of sin/cos over f64; out of reach",
- "C07": "not built yet", 
-  
-  
 }
